@@ -543,7 +543,8 @@ func loRequire(L *LState) int {
 		L.Push(lv)
 		return 1
 	}
-	loaders, ok := L.GetField(L.Get(RegistryIndex), "_LOADERS").(*LTable)
+	// the field is read on every call (lloadlib.c ll_require), so that a script may install its own chain
+	loaders, ok := L.GetField(L.GetField(L.Get(EnvironIndex), "package"), "loaders").(*LTable)
 	if !ok {
 		L.RaiseError("package.loaders must be a table")
 	}
